@@ -98,8 +98,12 @@ def main():
             finally:
                 drop(wt)
         elif a.cmd == 'run':
-            checks = a.checks or [meta['property']]
-            wt = worktree(d / 'patch.diff')
+            checks = a.checks or meta.get('expected_checks') or [meta['property']]
+            try:
+                wt = worktree(d / 'patch.diff')
+            except RuntimeError as e:
+                print(n, 'PATCH DOES NOT APPLY', str(e)[-120:])
+                continue
             try:
                 env = dict(os.environ, PI2_REPO=wt)
                 for c in checks:
